@@ -92,6 +92,9 @@ class IC10Operand:
             value = value.Id or "db"
         elif isinstance(value, DeviceId):
             value = value._id or "db"
+        elif isinstance(value, bool):
+            # folded comparisons / `not` yield Python bools: IC10 has no True/False literals
+            value = int(value)
         elif isinstance(value, float) and int(value) == value:
             value = int(value)
         self.value = value
